@@ -64,6 +64,16 @@ pub trait Campaign: Sync {
         false
     }
     fn assumptions(&self) -> Vec<String> {
+        let mut v = vec![
+            "simrt's Mutex/Condvar/mpsc/atomic/thread stand-ins allow exactly what std documents (any waiter may win, notify_one wakes any one waiter, spurious wake-ups only when the knob is on, FIFO unbounded channels); atomics are sequentially consistent; std::sync::Arc is not a scheduling point".to_string(),
+            "code between two simulated operations runs atomically (the crate forbids unsafe code and shares state only through the modelled primitives)".to_string(),
+            "transport model: byte streams with segment boundaries, half-close, close (seeded post-close write budget, BrokenPipe/ConnectionReset), reset, send window, short writes; no RST caused by closing with unread input, no EINTR, accept and peer_addr never fail".to_string(),
+            "a clean batch is evidence over the sampled schedules/faults, not a proof".to_string(),
+        ];
+        v.extend(self.extra_assumptions());
+        v
+    }
+    fn extra_assumptions(&self) -> Vec<String> {
         vec![]
     }
     fn uncovered(&self) -> Vec<String> {
